@@ -535,14 +535,14 @@ def _scenario(struct, idx, n, seed, orders, refit=False, rounding="r1", as_list=
     elif fitmode == "mle_all":
         fit = [{"method": "mle"} if i % 2 == 0 else None for i in range(n_dim)]
     elif fitmode == "wlsq0":
-        fit = [{"method": "wlsq", "weights": "quadratic"}] + [None] * (n_dim - 1)
+        fit = [{"method": "wlsq", "weights": ["quadratic", "cubic", "linear"][(idx // 4) % 3]}] + [None] * (n_dim - 1)
     else:
         fit = []
         for i in range(n_dim):
             if dims[i]["family"] == "ew":
-                fit.append({"method": "wlsq", "weights": "quadratic"})
+                fit.append({"method": "wlsq", "weights": ["quadratic", "cubic"][(idx // 4) % 2]})
             elif dims[i]["family"] == "ew_d5":
-                fit.append({"method": "wlsq", "weights": "linear"})
+                fit.append({"method": "wlsq", "weights": ["linear", "cubic"][(idx // 8) % 2]})
             else:
                 fit.append({"method": "mle", "weights": None})
     rnd = {"none": [], "r1": [1], "r1_all": [1] + [2] * (n_dim - 1), "r0.5": [0]}[rounding]
